@@ -47,6 +47,11 @@ def run(ctx):
     R.extra["activation_ids"] = list(ACT)
     EFFECT_TYPES = sorted(k for k in effect_dataset.default_attributes if k != 0)
     COND_TYPES = sorted(k for k in condition_dataset.default_attributes if k != 0)
+    # component types the loaded version's tables do not know (written by a newer game build / appended by hand):
+    # the per-player functions have to treat their player fields like anyone else's
+    NEWER_EFFECTS = sorted(set(int(x) for x in EffectId) - set(effect_dataset.default_attributes))
+    NEWER_CONDS = sorted(set(int(x) for x in ConditionId) - set(condition_dataset.default_attributes)) or [199]
+    R.extra["types_outside_version_tables"] = {"effects": NEWER_EFFECTS, "conditions": NEWER_CONDS}
 
     def prop_names(cls):
         return [n for n, v in vars(cls).items() if isinstance(v, property) and not n.startswith("_")]
@@ -103,10 +108,11 @@ def run(ctx):
 
     def rand_comp(kind, frm, ntrig, link_mode):
         if kind == "c":
-            t = rng.choice(COND_TYPES)
+            t = rng.choice(NEWER_CONDS) if rng.random() < 0.08 else rng.choice(COND_TYPES)
             attrs = {a: rand_attr(a) for a in rng.sample(COND_ATTRS, rng.choice([0, 0, 1, 2, 3]))}
             return {"type": t, "src": rand_player(frm), "tgt": rand_player(frm) if rng.random() < 0.6 else -1, "attrs": attrs}
-        t = rng.choice(ACT) if rng.random() < link_mode else rng.choice(EFFECT_TYPES)
+        t = rng.choice(ACT) if rng.random() < link_mode else (
+            rng.choice(NEWER_EFFECTS) if NEWER_EFFECTS and rng.random() < 0.1 else rng.choice(EFFECT_TYPES))
         attrs = {a: rand_attr(a) for a in rng.sample(EFF_ATTRS[:-1], rng.choice([0, 0, 1, 2, 3]))}
         if t in ACT:
             r = rng.random()
@@ -126,12 +132,20 @@ def run(ctx):
         for i, ts in enumerate(spec["triggers"]):
             t = tm.add_trigger(f"t{i}")
             for c in ts["conds"]:
-                o = t._add_condition(ConditionId(c["type"]) if c["type"] in ConditionId._value2member_map_ else c["type"])
+                if c["type"] not in condition_dataset.default_attributes:
+                    o = Condition(**{**condition_dataset.default_attributes[0], "condition_type": c["type"]})
+                    t.conditions.append(o)
+                else:
+                    o = t._add_condition(ConditionId(c["type"]) if c["type"] in ConditionId._value2member_map_ else c["type"])
                 for k, v in c["attrs"].items():
                     setattr(o, k, v)
                 o.source_player, o.target_player = c["src"], c["tgt"]
             for e in ts["effs"]:
-                o = t._add_effect(EffectId(e["type"]) if e["type"] in EffectId._value2member_map_ else e["type"])
+                if e["type"] not in effect_dataset.default_attributes:
+                    o = Effect(**{**effect_dataset.default_attributes[0], "effect_type": e["type"]})
+                    t.effects.append(o)
+                else:
+                    o = t._add_effect(EffectId(e["type"]) if e["type"] in EffectId._value2member_map_ else e["type"])
                 for k, v in e["attrs"].items():
                     try:
                         setattr(o, k, v)
